@@ -177,6 +177,24 @@ CHECKS = {
                   "fit",
         engine="store",
     ),
+    "C20": dict(
+        category="model_checking",
+        text="Exhaustive grid of synthetic measurement files (5 grid "
+             "shapes x 6 scan orders x missing curve, every curve with its "
+             "own modulus), nested folders, spring-constant / tip-position / "
+             "meta_override variants and the recorded JPK files: count, "
+             "order, unique enums, monotone callbacks, refusal rule, pixel "
+             "values. Explicit-state BFS over fit / refit-with-other-model / "
+             "settings-edit / rate / preprocess on the curves of a 2x2 map "
+             "(depth 3-6) with the pixel oracle (own value at own pixel, "
+             "else NaN + one warning) in every state.",
+        design_ref="DESIGN.md §2 C20",
+        note="'current rating' = the curve's last computed rating; folder "
+             "order = afmformats.find_data order.",
+        technique="exhaustive file-grid enumeration + explicit-state BFS "
+                  "over map histories with a per-pixel invariant",
+        engine="hist+grid",
+    ),
 }
 
 NA_REASON = "check not built yet in this session (under construction; see DESIGN.md §9 work order)"
@@ -213,7 +231,7 @@ def build():
         "engines": [
             {"name": "enum", "path": "mc/props/c14.py", "serves_properties": ["C14"],
              "kind_free_text": "complete enumeration of a finite input domain on the implementation"},
-            {"name": "hist", "path": "mc/hist.py", "serves_properties": ["C03", "C06", "C09", "C10", "C12", "C16"],
+            {"name": "hist", "path": "mc/hist.py", "serves_properties": ["C03", "C06", "C09", "C10", "C12", "C16", "C20"],
              "kind_free_text": "explicit-state breadth-first search over operation histories on real objects (replay from scratch, canonical state hash, per-state and per-transition oracles, merge-soundness and determinism self-checks)"},
             {"name": "store", "path": "mc/props/c03_store.py", "serves_properties": ["C03", "C18", "C19"],
              "kind_free_text": "closure (fixpoint) search of small dictionary-like stores against a reference model"},
